@@ -21,6 +21,12 @@ func ByteToBase10(b []byte) (n uint64, err error) {
 			err = errBase10
 			return
 		}
+		if n > (^uint64(0)-uint64(v))/base {
+			// would not fit in 64 bits
+			n = 0
+			err = errBase10
+			return
+		}
 		n *= base
 		n += uint64(v)
 	}
